@@ -336,6 +336,24 @@ def end_stream_table(ctx, rule):
         d = live_field(R, st0, R["dropped_f"])
         z = cons_zone(o, terms=(b,))
         may_true = not (is_const(val) and val[1] == 0)
+        if v0 is None:
+            # a catch-all arm (`_ => ..`): the row stands for every variant the path has not excluded
+            excl = set(o.cons.notvariant.get(st0, ()))
+            rest = [vv["name"] for vv in ctx.facts.adts[R["state_ty"]]["variants"] if vv["name"] not in excl]
+            if R["live"] in rest:
+                ctx.violation(rule, rule + "|variant", "UNRECOGNISED: a catch-all row of is_end_stream covers the live state")
+                continue
+            for vn in rest:
+                seen.add(vn)
+                if vn == R["err"]:
+                    if may_true:
+                        ctx.violation(rule, rule + "|err-true", "is_end_stream can answer true while an abort error is pending (%s; a catch-all arm "
+                                      "covers the error state)" % short(val, 40))
+                    else:
+                        ctx.ok(rule, "error pending -> false (catch-all arm)")
+                elif vn == R["fused"]:
+                    ctx.ok(rule, "consumer finished -> %s (catch-all arm)" % short(val, 20))
+            continue
         seen.add(v0)
         if v0 == R["err"]:
             if may_true:
